@@ -276,13 +276,32 @@ Qed.
 Definition to_lower_byte (c : byte) : byte := if (65 <=? c) && (c <=? 90) then c + 32 else c.
 Definition to_lower (s : str) : str := map to_lower_byte s.
 
-(* strings.Fields (ASCII white space only where the callers pass trimmed ASCII syntax lines; multi-byte
-   white space is treated as in unicode.IsSpace by [fields_u]) *)
-Fixpoint fields_aux (cur : str) (s : str) : list str :=
-  match s with
-  | [] => match cur with [] => [] | _ => [rev cur] end
-  | c :: r => if is_ascii_space c
-              then match cur with [] => fields_aux [] r | _ => rev cur :: fields_aux [] r end
-              else fields_aux (c :: cur) r
+(* strings.Fields: split around runs of white space (unicode.IsSpace over UTF-8) *)
+Fixpoint fields_fuel (fuel : nat) (cur : str) (s : str) : list str :=
+  match fuel with
+  | O => match cur with [] => [] | _ => [rev cur] end
+  | S f =>
+    match s with
+    | [] => match cur with [] => [] | _ => [rev cur] end
+    | c :: r =>
+      match strip_space1 s with
+      | Some rest => match cur with [] => fields_fuel f [] rest | _ => rev cur :: fields_fuel f [] rest end
+      | None => fields_fuel f (c :: cur) r
+      end
+    end
   end.
-Definition fields (s : str) : list str := fields_aux [] s.
+Definition fields (s : str) : list str := fields_fuel (S (length s)) [] s.
+
+(* strconv.Atoi as used with its error ignored: 0 on a syntax error, the clamped value on a range error *)
+Definition atoi_val (s : str) : Z :=
+  let '(neg, ds) := match s with
+                    | 45 :: r => (true, r)
+                    | 43 :: r => (false, r)
+                    | _ => (false, s)
+                    end in
+  match atoi_digits ds with
+  | None => 0%Z
+  | Some n =>
+    let v := if neg then (- Z.of_N n)%Z else Z.of_N n in
+    if (v <? - max_int64 - 1)%Z then (- max_int64 - 1)%Z else if (max_int64 <? v)%Z then max_int64 else v
+  end.
